@@ -343,10 +343,18 @@ def run_dht(scenario, run, monitor=False, corrupt_factory=None, max_steps=12_000
                 run.probes['announce_ok'] += 1
                 kint = int.from_bytes(key, 'big')
                 closest = sorted((j for j in started if j != i), key=lambda j: int.from_bytes(ids[j], 'big') ^ kint)[:8]
-                if set(id_to_index.get(x) for x in stored_to) == set(closest):
+                stored_idx = set(id_to_index.get(x) for x in stored_to)
+                if stored_idx == set(closest):
                     run.probes['stored_on_all_k_closest'] += 1
                 else:
                     run.probes['stored_not_exactly_k_closest'] += 1
+                # "stored on nodes closest to its hash": the lookup is heuristic (exactly the K closest in 8047 of
+                # 8048 settled announcements of a thorough batch), so only a gross miss is a violation
+                if len(stored_idx & set(closest)) * 2 < min(len(stored_idx), len(closest)):
+                    run.violation('C12.stored_far_from_hash', f'announce_blob by node {i} stored on nodes '
+                                  f'{sorted(x for x in stored_idx if x is not None)} but the {len(closest)} nodes closest to '
+                                  f'the hash are {closest}')
+                    return
             elif kind == 'thin_announce':
                 t = op['target']
                 if t not in started:
